@@ -4,6 +4,7 @@ import (
 	"bytes"
 	"compress/flate"
 	"compress/gzip"
+	"compress/zlib"
 	"fmt"
 	"net/http"
 	"net/url"
@@ -55,6 +56,7 @@ type Message struct {
 	NonUTF8Body    bool // Entity is not valid UTF-8
 	NonUTF8Param   bool // some form parameter value is not valid UTF-8
 	NonUTF8Query   bool // some query value is not valid UTF-8
+	BadQuery       bool // the query holds a pair net/url does not accept
 	ChunkCount     int
 	TrailerPresent bool
 }
@@ -84,6 +86,15 @@ func compress(enc string, plain []byte) []byte {
 	case "deflate":
 		// raw DEFLATE: what messageview and its tests mean by "deflate"
 		w, _ := flate.NewWriter(&buf, flate.BestSpeed)
+		w.Write(plain)
+		w.Close()
+	case "x-gzip":
+		w, _ := gzip.NewWriterLevel(&buf, gzip.BestSpeed)
+		w.Write(plain)
+		w.Close()
+	case "deflate-zlib":
+		// the "deflate" coding as RFC 7230 4.2.2 defines it: zlib-wrapped
+		w, _ := zlib.NewWriterLevel(&buf, zlib.BestSpeed)
 		w.Write(plain)
 		w.Close()
 	default:
@@ -160,7 +171,7 @@ func (m *Message) buildBody() {
 		}
 	}
 	switch s.Encoding {
-	case "gzip", "deflate", "GZIP":
+	case "gzip", "deflate", "GZIP", "x-gzip", "deflate-zlib":
 		m.Entity = compress(s.Encoding, plain)
 		m.Plain = plain
 		m.Decodable = true
@@ -171,6 +182,8 @@ func (m *Message) buildBody() {
 	switch s.Encoding {
 	case "gzip-bad":
 		m.Encoding = "gzip"
+	case "deflate-zlib":
+		m.Encoding = "deflate"
 	default:
 		m.Encoding = s.Encoding
 	}
@@ -231,10 +244,22 @@ func Build(s Spec) *Message {
 	var buf bytes.Buffer
 	if s.Response {
 		m.Status, m.Reason = s.Status, http.StatusText(s.Status)
+		if s.CustomReason {
+			m.Reason = s.Reason
+		}
 		fmt.Fprintf(&buf, "%s %d %s\r\n", m.Proto, m.Status, m.Reason)
 	} else {
 		var q []string
 		for _, nv := range s.Query {
+			if nv.Raw != "" {
+				q = append(q, nv.Raw)
+				if nv.Bad {
+					m.BadQuery = true
+				} else {
+					m.Query = append(m.Query, Header{nv.Name, nv.Value.Lit})
+				}
+				continue
+			}
 			v := string(nv.Value.Bytes())
 			q = append(q, url.QueryEscape(nv.Name)+"="+url.QueryEscape(v))
 			m.Query = append(m.Query, Header{nv.Name, v})
@@ -251,6 +276,10 @@ func Build(s Spec) *Message {
 		m.Target = pq
 		if s.AbsForm {
 			m.Target = m.URL
+		}
+		if s.Method == "CONNECT" {
+			// authority form; proxy.go gives the URL the scheme http
+			m.Target, m.URL = s.Host, "http://"+s.Host
 		}
 		fmt.Fprintf(&buf, "%s %s %s\r\n", m.Method, m.Target, m.Proto)
 		m.add(&buf, "Host", s.Host)
